@@ -130,6 +130,25 @@ theorem retarget_plain (k : Nat) (f : Family) (e : Eff) (et oa : Option Int) (h 
   simp [retarget, storedVariable, storedQuantity, h]
 
 /-! ### non-vacuity: the hypotheses are met by ordinary values, and the numbers are the documented ones -/
+/-- a plain quantity left behind by an earlier life of the effect (created as a plain effect, or assigned through the
+`quantity` setter) never reaches the file once the effect is a quantity-based armour/attack effect: only the pair does -/
+theorem stale_quantity_ignored (k : Nat) (e : Eff) (q' : Option Int) (h : e.src = .quantity) :
+    storedQuantity k { e with quantity := q' } = storedQuantity k e := by
+  simp [storedQuantity, h]
+
+/-- the pair that was set last wins over an earlier `quantity = v` assignment -/
+theorem pair_after_setQuantity (k : Nat) (e : Eff) (v c a : Int) (h : e.src = .quantity) :
+    storedQuantity k (setAmount (setClass (setQuantity k e v) c) a) = .ok (some (merge k c a)) := by
+  simp [setQuantity, setClass, setAmount, storedQuantity, h]
+
+/-- … and a later `quantity = v` assignment wins over an earlier pair -/
+theorem setQuantity_after_pair (k : Nat) (e : Eff) (v c a : Int) (h : e.src = .quantity) :
+    storedQuantity k (setQuantity k (setAmount (setClass e c) a) v) = .ok (some v) := by
+  have := setQuantity_stored k (setAmount (setClass e c) a) v
+  simpa [setClass, setAmount, h] using this
+
+example : (fresh .variable).aaClass = some 0 ∧ (fresh .quantity).aaClass = none := by decide
+
 example : merge (width true) 3 5 = 196613 ∧ merge (width false) 3 5 = 773 := by decide
 example : split 16 196613 = (3, 5) ∧ split 8 773 = (3, 5) ∧ split 8 (-300) = (-2, 212) := by decide
 example : (0:Int) ≤ 5 ∧ (5:Int) < 2 ^ 8 := by decide
